@@ -5,7 +5,7 @@ import core, lib
 from core import call_matches, op_place, op_local, backward_slice
 from props import shared
 
-LEVEL = 'proof'
+LEVEL = 'other'
 FLOOR = 53      # 70% of the 76 obligation instances derived on the tree the rules were last reviewed against
 EXPLANATION = ('WAL confinement of every persistent-state writer; in replay a record is applied only after the whole record passed the '
                'validation pass (checksum compared, sequence number == last_enacted+1); last_enacted advanced only by the applier; appliers '
@@ -151,6 +151,37 @@ def absent_only_if_not_found(ctx, p):
     ctx.ob(p + 'b absent-sites', 'anchor', '-', 'both open_existing functions have an Ok(None) exit', n >= 2, 'found %d' % n)
 
 
+def init_decided_by_content(ctx, p):
+    """the only table write made outside the log is the first entry of a btree column's header table. A stop between creating that
+    file and writing the entry leaves an existing, empty table: whether the entry has to be written is therefore decided from the
+    table's content (fill mark), not from the existence of the file - otherwise the column stays unusable for good."""
+    F = ctx.F
+    bo = ctx.body('btree::BTreeTable::open')
+    if not bo:
+        return
+    sites = lib.sites_reaching(bo, ['table::ValueTable::init_with_entry'])
+    ctx.ob(p + 'a init-site', 'anchor', bo.path, 'BTreeTable::open initialises the header entry', len(sites) >= 1, str(sites))
+    for s2 in sites:
+        calls, fields, binops = lib.guard_influences(bo, s2)
+        fl = set(fields)
+        for c in lib.shallow_calls(F, calls, owner=bo.path):
+            cb = F.body(c)
+            if cb is not None:
+                for blk in cb.blocks:
+                    for st in blk['s']:
+                        if st['k'] == 'assign':
+                            for pl in ([st['r'].get('p')] if st['r'].get('p') else []) + [op_place(a) for a in st['r'].get('a', []) if op_place(a)]:
+                                fl |= set(e for e in pl[1:] if isinstance(e, str) and e.startswith('.'))
+                    t = blk['t']
+                    if t['k'] == 'call':
+                        for a in t['a']:
+                            if op_place(a):
+                                fl |= backward_slice(cb, [op_place(a)], through_calls=False).fields
+        ctx.ob(p + 'b header-entry-written-unless-table-has-it', 'K3-guard', bo.path,
+               'the decision to write the header entry looks at the fill mark of the table (ValueTable.filled), not only at whether the file is mapped',
+               '.ValueTable.filled' in fl, 'decision depends on %s' % sorted(f for f in fl if 'ValueTable' in f or 'TableFile' in f)[:6], bo.loc(s2))
+
+
 def idempotent_appliers(ctx, p):
     F = ctx.F
     READS = ['file::TableFile::read_at', 'file::TableFile::slice_at', 're:(IndexTable|RefCountTable)::(chunk_at|entries|table_entries|read_entry|find_entry.*|get)$',
@@ -244,3 +275,6 @@ def run(ctx):
     shared.queue_discipline(ctx, '7')
     shared.drop_table_idempotent(ctx, '9')     # replayed actions are idempotent: DropTable
     absent_only_if_not_found(ctx, '10')
+    init_decided_by_content(ctx, '12')
+    shared.allocation_state_belongs_to_a_record(ctx, '13')
+    shared.old_table_records_skipped(ctx, '11')   # a dropped table named by an old record must not make replay discard the log
